@@ -70,7 +70,7 @@ def removesingleton(f, rd, coordkeys=None):
 
     outf = PseudoNetCDFFile()
     for propkey in f.ncattrs():
-        setattr(outf, propkey, getattr(f, propkey))
+        setattr(outf, propkey, _getncattr(f, propkey))
     for dk, d in f.dimensions.items():
         unlim = d.isunlimited()
         ni = len(d)
@@ -83,7 +83,7 @@ def removesingleton(f, rd, coordkeys=None):
         dims = tuple([dk for dk in v.dimensions if dk in outf.dimensions])
         sdims = tuple([dk for dk in enumerate(v.dimensions)
                        if dk[1] not in outf.dimensions])[::-1]
-        propd = dict([(pk, getattr(v, pk)) for pk in v.ncattrs()])
+        propd = dict([(pk, _getncattr(v, pk)) for pk in v.ncattrs()])
         ov = outf.createVariable(vk, v.dtype.char, dims, **propd)
         outvals = v[...]
         for di, dk in sdims:
@@ -143,7 +143,7 @@ def getvarpnc(f, varkeys, coordkeys=None, copy=True):
                 if f.dimensions[coordk].isunlimited():
                     newdimv.setunlimited(True)
 
-        propd = dict([(k, getattr(var, k)) for k in var.ncattrs()])
+        propd = dict([(k, _getncattr(var, k)) for k in var.ncattrs()])
         if hasattr(var[...], 'fill_value') and 'fill_value' not in propd:
             propd['fill_value'] = var[...].fill_value
 
@@ -162,7 +162,7 @@ def getvarpnc(f, varkeys, coordkeys=None, copy=True):
     for coordkey in coordkeys:
         if coordkey in f.variables.keys():
             coordvar = f.variables[coordkey]
-            propd = dict([(k, getattr(coordvar, k))
+            propd = dict([(k, _getncattr(coordvar, k))
                           for k in coordvar.ncattrs()])
             coordvals = coordvar[...]
             if copy:
@@ -209,7 +209,7 @@ def interpvars(f, weights, dimension, loginterp=[]):
             newvar = outf.createVariable(
                 vark, oldvar.dtype.char, oldvar.dimensions, **kwds)
             for ak in oldvar.ncattrs():
-                setattr(newvar, ak, getattr(oldvar, ak))
+                setattr(newvar, ak, _getncattr(oldvar, ak))
             if len(weights.shape) <= len(oldvar.dimensions):
                 weightslice = (None,) * (dimidx) + (Ellipsis,) + \
                     (None,) * len(oldvar.dimensions[dimidx + 1:])
@@ -435,7 +435,7 @@ def extract_lonlat(f, lonlat, unique=False, gridded=None, method='nn',
             newdims = tuple(newdims)
             newv = extractfunc(v, thiscoords)
 
-            propd = dict([(ak, getattr(v, ak)) for ak in v.ncattrs()])
+            propd = dict([(ak, _getncattr(v, ak)) for ak in v.ncattrs()])
             nv = outf.createVariable(
                 k, v.dtype.char, newdims, values=newv, **propd)
             setattr(nv, 'coordinates', getattr(
@@ -463,7 +463,8 @@ def mask_vals(f, maskdef, metakeys=_metakeys):
                 vout = eval(maskexpr)
                 f.variables[varkey] = PseudoNetCDFMaskedVariable(
                     f, varkey, var.dtype.char, var.dimensions, values=vout,
-                    **dict([(pk, getattr(var, pk)) for pk in var.ncattrs()]))
+                    **dict([(pk, _getncattr(var, pk))
+                            for pk in var.ncattrs()]))
             except Exception as e:
                 warn('Cannot mask %s: %s' % (varkey, str(e)))
     return f
@@ -688,7 +689,7 @@ def reduce_dim(f, reducedef, fuzzydim=True, metakeys=_metakeys):
         nvar = outf.variables[varkey] = PseudoNetCDFMaskedVariable(
             outf, varkey, var.dtype.char, var.dimensions, values=vout)
         for k in var.ncattrs():
-            setattr(nvar, k, getattr(var, k))
+            setattr(nvar, k, _getncattr(var, k))
 
     history = getattr(outf, 'history', '')
     history += historydef
@@ -993,7 +994,7 @@ def merge(fs):
     for f in fs[1:]:
         for p in f.ncattrs():
             if p not in outf.ncattrs():
-                setattr(outf, p, getattr(f, p))
+                setattr(outf, p, _getncattr(f, p))
         for d, v in f.dimensions.items():
             if d not in outf.dimensions:
                 nv = outf.createDimension(d, len(v))
@@ -1006,7 +1007,7 @@ def merge(fs):
                 ):
                     warn('%s already in output' % k)
             else:
-                propd = dict([(p, getattr(v, p)) for p in v.ncattrs()])
+                propd = dict([(p, _getncattr(v, p)) for p in v.ncattrs()])
                 outf.createVariable(
                     k, v.dtype.char, v.dimensions, values=v, **propd)
 
